@@ -9,6 +9,7 @@ import (
 	"path/filepath"
 	"strings"
 	"sync"
+	"sync/atomic"
 	"time"
 )
 
@@ -176,9 +177,16 @@ loop:
 	o.Output = sb.String()
 }
 
+// failFast (must-fail corpus runs on scratch copies only): once an obligation that counts as a
+// violation has failed, the obligations not yet started are skipped - the run's answer is "exit 1,
+// this obligation" either way, and a mutant that turns many obligations into timeouts otherwise
+// costs a timeout each.
+var failFast func(o *Obligation) bool
+
 func solveAll(obls []*Obligation, dir string, timeoutS, seed int, needTwo bool, par int) {
 	os.MkdirAll(dir, 0o755)
 	var wg sync.WaitGroup
+	var stopped atomic.Bool
 	sem := make(chan struct{}, par)
 	for _, o := range obls {
 		o := o
@@ -187,7 +195,14 @@ func solveAll(obls []*Obligation, dir string, timeoutS, seed int, needTwo bool, 
 		go func() {
 			defer wg.Done()
 			defer func() { <-sem }()
+			if stopped.Load() {
+				o.Result = "skipped"
+				return
+			}
 			solveOne(o, dir, timeoutS, seed, needTwo)
+			if failFast != nil && failFast(o) {
+				stopped.Store(true)
+			}
 		}()
 	}
 	wg.Wait()
